@@ -53,7 +53,8 @@ def apalache_lengths(seed, tier):
 
 _ENC_DESIGN = [
     dict(spec="MCEncrypt.tla", cfg="MCEncrypt.cfg", workers=4, timeout=300),
-    dict(spec="MCEncryptTree.tla", cfg="MCEncryptTreeB2.cfg", cfg_thorough="MCEncryptTreeB2_thorough.cfg", workers=4, timeout=300),
+    dict(spec="MCEncryptTree.tla", cfg="MCEncryptTreeB2.cfg", cfg_thorough="MCEncryptTreeB2_thorough.cfg", workers=4, timeout=300,
+         thorough_only=True),
     dict(spec="MCEncryptTree.tla", cfg="MCEncryptTreeB3.cfg", cfg_thorough="MCEncryptTreeB3_thorough.cfg", workers=4, timeout=600),
     dict(spec="MCEncryptTree.tla", cfg="MCEncryptTreeB4.cfg", cfg_thorough="MCEncryptTreeB4_thorough.cfg", workers=8, timeout=800,
          thorough_only=True),
@@ -79,8 +80,8 @@ CHECKS["C08"] = dict(
     technique="TLA+ model of the cipher object and of the encrypted trie writer vs the decrypting reader's length loop, checked by TLC "
               "(scaled constants) and Apalache (real constants, all 63-bit spans); TLC-generated cipher histories and level-boundary "
               "spans run on pkg/encryption and pkg/encryption/store; the recording is judged by EncryptTrace.tla",
-    level_text="TLC exhausts the cipher state machine (bit-level XOR algebra as ASSUME) and the hashTrieWriter model for B in {2,3,4} "
-               "(every file up to B^7 / 2200 / 16400 chunks in thorough, every last-chunk size): each emitted chunk satisfies "
+    level_text="TLC exhausts the cipher state machine (bit-level XOR algebra as ASSUME) and the hashTrieWriter model for branching 3 "
+               "(quick: every file up to 250 chunks) or 2, 3 and 4 (thorough: up to 130 = full trie / 2200 / 16400 chunks), every last-chunk size: each emitted chunk satisfies "
                "LoopLen(span) = stored length = closed form StoredLen(span). Generators (TLC): every (length, padding, key, counter) "
                "class round trip, random Encrypt/Decrypt/Reset walks, and fabricated encrypted chunks whose spans sit on both sides of "
                "every level boundary up to 2^63, read through the real decrypting store; every event judged by TLC",
@@ -157,9 +158,9 @@ CHECKS["C03"] = dict(
         dict(spec="MCBMT.tla", cfg="MCBMT_S4.cfg", cfg_thorough="MCBMT_S4_thorough.cfg", workers=4, timeout=600),
         dict(spec="MCBMT.tla", cfg="MCBMT_S2x3.cfg", workers=4, timeout=600),
         dict(spec="MCBMT.tla", cfg="MCBMT_S1.cfg", workers=2, timeout=300, thorough_only=True),
-        dict(spec="MCBMT.tla", cfg="MCBMT_S4x2.cfg", workers=8, timeout=600, thorough_only=True),
-        dict(spec="MCBMT.tla", cfg="MCBMT_S2one.cfg", workers=4, timeout=600, thorough_only=True),
-        dict(spec="MCBMT.tla", cfg="MCBMT_S2pool.cfg", workers=4, timeout=600, thorough_only=True),
+        dict(spec="MCBMT.tla", cfg="MCBMT_S4x2.cfg", workers=8, timeout=600, thorough_only=True, coverage=False),
+        dict(spec="MCBMT.tla", cfg="MCBMT_S2one.cfg", workers=4, timeout=600, thorough_only=True, coverage=False),
+        dict(spec="MCBMT.tla", cfg="MCBMT_S2pool.cfg", workers=4, timeout=600, thorough_only=True, coverage=False),
         dict(spec="MCBMT.tla", cfg="MCBMT_S8.cfg", workers=8, timeout=840, thorough_only=True, coverage=False),
     ],
     gen=dict(
@@ -167,16 +168,17 @@ CHECKS["C03"] = dict(
                _bmt_gen("edges4", "BMTGenEdges.cfg", "edges", "small", 4, depth=8, max=200),
                _bmt_gen("walks8", "BMTGenApi.cfg", "sim", "small", 8, poolcap=2, handles=3, depth=16, num=25, max=120),
                dict(mode="exh", spec="BMTSched.tla", cfg="BMTSched_S4.cfg", name="forced4", dedup=True, max=200, workers=4, timeout=300)],
-        thorough=[dict(mode="exh", spec="BMTGen.tla", cfg="BMTGenPlanSmall.cfg", name="plans-small", env={"VERIF_RICH": 1}, timeout=600),
+        thorough=[dict(mode="exh", spec="BMTGen.tla", cfg="BMTGenPlanSmall.cfg", name="plans-small", env={"VERIF_RICH": 1}, max=6000, timeout=600),
                   dict(mode="exh", spec="BMTGen.tla", cfg="BMTGenPlanMid.cfg", name="plans-128", env={"VERIF_RICH": 1}, max=3000, timeout=600),
-                  dict(mode="exh", spec="BMTGen.tla", cfg="BMTGenPlanProd.cfg", name="plans-prod", env={"VERIF_RICH": 1}, timeout=600),
+                  dict(mode="exh", spec="BMTGen.tla", cfg="BMTGenPlanOdd.cfg", name="plans-3-6", max=1200, timeout=600),
+                  dict(mode="exh", spec="BMTGen.tla", cfg="BMTGenPlanProd.cfg", name="plans-prod", env={"VERIF_RICH": 1}, max=2500, timeout=600),
                   _bmt_gen("edges4", "BMTGenEdges.cfg", "edges", "small", 4, depth=8),
                   _bmt_gen("walks8", "BMTGenApi.cfg", "sim", "small", 8, poolcap=2, handles=3, depth=24, num=120, max=2500),
                   _bmt_gen("walks2", "BMTGenApi.cfg", "sim", "small", 2, poolcap=1, handles=2, depth=20, num=40, max=800, salt=5),
                   dict(mode="exh", spec="BMTSched.tla", cfg="BMTSched_S2.cfg", name="forced2", dedup=True, workers=4, timeout=300),
                   dict(mode="exh", spec="BMTSched.tla", cfg="BMTSched_S4.cfg", name="forced4", dedup=True, workers=4, timeout=300),
                   dict(mode="exh", spec="BMTSched.tla", cfg="BMTSched_S4w2.cfg", name="forced4w2", dedup=True, workers=4, timeout=600),
-                  dict(mode="exh", spec="BMTSched.tla", cfg="BMTSched_S8.cfg", name="forced8", dedup=True, workers=8, timeout=840)]),
+                  dict(mode="exh", spec="BMTSched.tla", cfg="BMTSched_S8.cfg", name="forced8", dedup=True, max=2000, workers=8, timeout=840)]),
     judge=dict(spec="BMTTrace.tla", cfg="BMTTrace.cfg"),
     corrupt=_bmt_corrupt,
     driver_timeout=1500,
